@@ -488,14 +488,29 @@ func (w *World) Script(assumptions []*Term, goal *Term, wantModel bool) string {
 			}
 			as := map[string]bool{}
 			symbolsOf(a.String(), as)
-			rel := false
+			// relevant iff every uninterpreted function it mentions occurs in the query
+			// (and, if it talks about declared constants, at least one of them does)
+			rel := true
+			nfun, nconst, constUsed := 0, 0, false
 			for s := range as {
-				if _, isFun := w.funs[s]; isFun && used[s] {
-					rel = true
+				if _, isFun := w.funs[s]; isFun {
+					nfun++
+					if !used[s] {
+						rel = false
+					}
 				}
-				if _, isConst := w.consts[s]; isConst && used[s] {
-					rel = true
+				if _, isConst := w.consts[s]; isConst {
+					nconst++
+					if used[s] {
+						constUsed = true
+					}
 				}
+			}
+			if nconst > 0 && !constUsed {
+				rel = false
+			}
+			if nfun == 0 && nconst == 0 {
+				rel = false
 			}
 			if rel {
 				included[i] = true
